@@ -751,6 +751,7 @@ func (r *runner) do(line string) string {
 		return "bad-op"
 	}
 	op, impl := r.w.exec(ws)
+	r.run.Count("op:" + ws[0])
 	r.run.Emit(op, impl)
 	return impl
 }
